@@ -98,6 +98,12 @@ PROPS["C01"] = dict(
         "Zrnt.Proofs.C01.M_block_refines_S_altair",
         "Zrnt.Proofs.C01.processBlock_bellatrix_eq",
         "Zrnt.Proofs.C01.M_block_refines_S_bellatrix",
+        "Zrnt.Proofs.C01.processBlock_capella_eq",
+        "Zrnt.Proofs.C01.M_block_refines_S_capella",
+        "Zrnt.Proofs.C01.processBlock_deneb_eq",
+        "Zrnt.Proofs.C01.M_block_refines_S_deneb",
+        "Zrnt.Proofs.C01.M_block_refines_S",
+        "Zrnt.Proofs.C01.admissible_forks",
         "Zrnt.Proofs.C01.ctx_frames",
         "Zrnt.Proofs.C01.sameCommittees_initiate",
     ],
@@ -114,7 +120,7 @@ PROPS["C01"] = dict(
          "(pre/reset lines are not counted); distinct = distinct (position, line) for sequences, distinct lines for pieces",
     trusted_base=TB_COMMON + TB_BLOCK,
     assumptions=ASSUME_BLOCK + [
-        "M_block_refines_S is proved only in part (M_block_refines_S_partial). Proved M = S (accept/reject and post-state; M = the code-shaped model "
+        "M_block_refines_S is proved for all five forks under the budgeted invariants described at the end of this item (history of the partial results first). Proved M = S (accept/reject and post-state; M = the code-shaped model "
         "lean/Zrnt/Beacon/Impl/BlockM.lean that is also the model column of c01/c03) for EVERY operation kind: header, randao, eth1 vote, voluntary exit, "
         "deposit, BLS-to-execution change, execution payload of all three forks, proposer slashing, attester slashing (with slash_validator; the monadic S "
         "is proved equal to its pure core), and — against pure cores that the monadic S is compared with on every evaluation — the withdrawals state update, "
@@ -127,7 +133,7 @@ PROPS["C01"] = dict(
         "(processBlock_noOps_eq), for phase0 blocks whose only operations are voluntary exits (processBlock_exits_eq), for phase0 blocks of proposer "
         "slashings + attester slashings + exits in any numbers (processBlock_slashExit_eq, counter-indexed invariant P0Inv) and for phase0 blocks of "
         "attestations (processBlock_attestations_eq), merged: ARBITRARY phase0 blocks without deposits (processBlock_phase0NoDeposits_eq), and EVERY phase0 block, deposits included "
-        "(processBlock_phase0_eq, M_block_refines_S_phase0; C03: M_sound_phase0) — for phase0 the premise OpSteps is gone; the same for EVERY altair block (processBlock_altair_eq, M_block_refines_S_altair; C03: M_sound_altair; invariant AltInv = P0DInv + participation lists, total active balance, the context's stake / effective balances / sync indices) and for EVERY bellatrix block (processBlock_bellatrix_eq, M_block_refines_S_bellatrix, M_sound_bellatrix: the payload step writes the latest payload header only, the engine verdict is an input); open: capella, deneb",
+        "(processBlock_phase0_eq, M_block_refines_S_phase0; C03: M_sound_phase0) — for phase0 the premise OpSteps is gone; the same for EVERY altair block (processBlock_altair_eq, M_block_refines_S_altair; C03: M_sound_altair; invariant AltInv = P0DInv + participation lists, total active balance, the context's stake / effective balances / sync indices) and for EVERY bellatrix block (processBlock_bellatrix_eq, M_block_refines_S_bellatrix, M_sound_bellatrix: the payload step writes the latest payload header only, the engine verdict is an input), for EVERY capella block (processBlock_capella_eq: withdrawals — balances only decrease, the withdrawal index advances by at most one payload's worth, the sweep cursor stays inside the registry —, payload, BLS changes: a credentials write keeps committees / proposer / exit queue / pubkeys) and EVERY deneb block (processBlock_deneb_eq). With all five forks closed: M_block_refines_S (and C03: M_sound) WITHOUT the premise OpSteps, under Admissible = the disjunction over the fork of the pre-state of the per-fork hypotheses (container class of the fork; the fork's budgeted invariant P0DInv / AltInv with blockNeed units; configuration facts P0Const, P0AConst, P0DConst, AltConst, CapConst); admissible_forks: no fork is left out. The _partial theorems (premise OpSteps, arbitrary invariant) are kept",
         "simulation (Sim): whenever S accepts with a post-state or rejects with `invalid`, M gives the same, and M never panics; S's own overflow/fuel/"
         "oracle outcomes (S as an executable could not decide) constrain nothing — the operation theorems exclude them under their magnitude hypotheses",
         "composition hypothesis check_types: the block is a value of the SSZ block type (per-element limits zrnt enforces when decoding)",
@@ -140,20 +146,23 @@ PROPS["C01"] = dict(
         level_text="Lean theorems, for all inputs without size bound: every block operation of the hand model M of zrnt's code equals the "
                    "executable specification S on every fork (header, RANDAO, eth1 vote, proposer and attester slashings incl. the ZigZagJoin "
                    "intersection and slash_validator, attestations phase0/altair/deneb, deposits, exits incl. the single-pass exit-queue scan, "
-                   "BLS changes, execution payload, withdrawals sweep, sync aggregate); the block composes: processBlock_eq / "
-                   "postSlotTransition_eq / stateTransition_eq (M simulates S and the budgeted invariant Inv k is re-established after an "
-                   "accepted block) for any fork under the per-operation premise OpSteps; for phase0 that premise is discharged for arbitrary "
-                   "blocks incl. deposits (processBlock_phase0_eq, M_block_refines_S_phase0); each modelled function is tied to the exported Go "
-                   "function by direct differential runs, and the real PostSlotTransition (signature validation on) is run against S for every "
-                   "block of generated chains that reach all five forks, contain every operation kind, blocks with exactly MAX_x operations and "
-                   "configurations with pairwise different per-fork constants",
+                   "BLS changes, execution payload, withdrawals sweep, sync aggregate); the block composes (processBlock_eq / "
+                   "postSlotTransition_eq / stateTransition_eq over a counter-indexed invariant), and the per-operation premise is discharged "
+                   "on ALL FIVE FORKS for arbitrary blocks of the fork's container type: processBlock_phase0_eq, _altair_eq, _bellatrix_eq, "
+                   "_capella_eq, _deneb_eq, each with the invariant re-established after an accepted block, and M_block_refines_S (no "
+                   "_partial): every block S accepts is accepted by the model of ProcessBlock / PostSlotTransition with the same post-state; "
+                   "each modelled function is tied to the exported Go function by direct differential runs, and the real PostSlotTransition "
+                   "(signature validation on) is run against S for every block of generated chains that reach all five forks, contain every "
+                   "operation kind, blocks with exactly MAX_x operations and configurations with pairwise different per-fork constants",
         level_note="trusted: Lean kernel, the specification transcription S, flat state/block exchange formats, signature oracle (real BLS, own "
                    "domain/committee code), chain generator; roots of block parts and the post-state root are inputs from the Go library; the tie "
-                   "M = Go is by correspondence (differential runs), not by proof; altair..deneb whole blocks are proved under the OpSteps "
-                   "premise only (M_block_refines_S_partial): there the per-operation theorems are proved but their side conditions along a "
-                   "block are not yet discharged, so whole-block equality on those forks rests on the correspondence along generated chains; "
-                   "the phase0 theorems assume a pre-state inside the budgeted invariant P0DInv (registry/balance/exit-queue headroom, context "
-                   "= spec committees) and deposit amounts within the balance unit",
+                   "M = Go is by correspondence (differential runs), not by proof; the theorems assume a pre-state inside the budgeted "
+                   "invariant (P0DInv / AltInv: registry, balance, slashings, exit-queue, deposit-index and withdrawal-index headroom for "
+                   "blockNeed units; the EpochsContext = the specification's proposer, committees, active count, stake, effective balances, "
+                   "sync indices, pubkey cache — what C07/C08/C16 establish for a real context), configuration facts (non-zero quotients, seed "
+                   "lookahead conditions, one balance unit covers attestation and sync rewards) and blocks of the SSZ block type (check_types, "
+                   "deposit amounts within one balance unit); the kernel cannot evaluate SHA-256, so no concrete-state instance of the "
+                   "invariants is exhibited in Lean — that they hold on real states is what the correspondence runs show",
         technique="Lean 4 proof (refinement lemmas) + Go/Lean differential correspondence with a BLS signature oracle",
         design_ref="DESIGN.md 5/C01", engine="lean"),
 )
